@@ -24,7 +24,7 @@ CLAIMED = {
  "C16": dict(engine="C-history", ref="DESIGN.md section 6.1",
     technique="deterministic simulation: seeded registration histories with injected refusals, checked step by step against a sequential slot-registry reference model, plus regrouping equivalence",
     text="Seeded exploration of registration histories (constructor entries + up to 4/6 set_metrics calls over a pool of 20 attributable metric variables) with refusal faults; after every step all get_metric reads are checked against a sequential model, and the same flattened registration sequence is re-executed under other batchings and must read identically.",
-    note="Reads are attributed through values (each pool variable is a constant prime field). For a refused multi-variable call both 'prefix registered' and 'nothing registered' are accepted for the other variables of that call."),
+    note="Reads are attributed through values (each pool variable is a constant prime field). A refused multi-variable call is modelled strictly as one-at-a-time registration (prefix registered, rest untouched)."),
  "C18": dict(engine="C-history", ref="DESIGN.md section 6.2",
     technique="deterministic simulation: seeded operation histories over shared argument objects with fault injection (ill-posed requests, raising user function, exception injected via sys.settrace at the k-th xgcm source line); oracle = pristine world snapshot + fresh-run outcome",
     text="Seeded exploration of histories of 2-3 (thorough 2-5) public operations that share argument objects; after every step, returned or raised or interrupted at an arbitrary xgcm source line, a deep snapshot of every caller-owned object and of the Grid must equal the pristine snapshot, and the outcome must equal that of the same call issued first on fresh objects.",
